@@ -63,7 +63,7 @@ func (c *Ctx) consumeShape(ru *report.Rule) *consumeShape {
 			s.batch = cf
 		}
 	}
-	for _, cl := range core.CallsTo(impl, gm) {
+	for _, cl := range c.callsToDeep(impl, 2, gm) { // in Consume itself or in the helper that opens the state file
 		s.mapCall = cl
 	}
 	if !ru.Anchor(s.fIdx >= 0, "callback parameter of Consume") || !ru.Anchor(s.batch != nil, "the batch closure handed to stream.Consumer.Consume") || !ru.Anchor(s.mapCall != nil, "the gommap.Map call that maps the consumer state") {
@@ -252,6 +252,37 @@ func checkC15(c *Ctx) {
 				sv, ok := dominatingStore(v)
 				if !ok {
 					sv = conversionsOnly(v)
+				}
+				// a field of the state object that a constructor called here has just built (state.offset after
+				// state := openConsumerState(path)): what the constructor's literal puts there
+				if ld, isLoad := conversionsOnly(sv).(*ssa.UnOp); isLoad && ld.Op == token.MUL {
+					if fa, isFA := ld.X.(*ssa.FieldAddr); isFA {
+						base := core.Strip(fa.X)
+						if ex, isEx := base.(*ssa.Extract); isEx {
+							base = ex.Tuple
+						}
+						if kc, isCall := base.(*ssa.Call); isCall && kc.Parent() == s.impl {
+							if g := kc.Call.StaticCallee(); g != nil {
+								var lit *ssa.Alloc
+								n := 0
+								for _, b := range g.Blocks {
+									if r, isRet := b.Instrs[len(b.Instrs)-1].(*ssa.Return); isRet && len(r.Results) > 0 {
+										if a, isAlloc := core.Strip(r.Results[0]).(*ssa.Alloc); isAlloc {
+											if lit != a {
+												n++
+											}
+											lit = a
+										}
+									}
+								}
+								if n == 1 {
+									if fv := (&builtObj{alloc: lit}).field(fieldNameOf(fa.X.Type(), fa.Field)); fv != nil {
+										sv = fv
+									}
+								}
+							}
+						}
+					}
 				}
 				call, ok := conversionsOnly(sv).(*ssa.Call)
 				if !ok {
